@@ -705,6 +705,7 @@ func (e *Env) call(x ECall) Binding {
 		a := arg(0)
 		switch a.T.Sort {
 		case SSlice:
+			c.sliceShape(a.T)
 			return Binding{sliceLen(a.T), types.Typ[types.Int]}
 		case SStr:
 			return Binding{app(SInt, "str_len", a.T), types.Typ[types.Int]}
@@ -719,6 +720,7 @@ func (e *Env) call(x ECall) Binding {
 	case "cap":
 		a := arg(0)
 		if a.T.Sort == SSlice {
+			c.sliceShape(a.T)
 			return Binding{sliceCap(a.T), types.Typ[types.Int]}
 		}
 		evalFail("cap of %s", exprString(x.Args[0]))
@@ -999,4 +1001,17 @@ func (e *Env) dynPointer(x Expr) *types.Pointer {
 		evalFail("dynamic type %s of %s is not a pointer", t, id.Name)
 	}
 	return pt
+}
+
+// sliceShape: a slice a contract measures is a Go slice (0 <= len <= cap); stated for ground terms
+// only (a term under a quantifier cannot be assumed about).
+func (c *Ctx) sliceShape(t Term) {
+	if strings.Contains(t.S, "q_") || c.shapeDone[t.S] {
+		return
+	}
+	if c.shapeDone == nil {
+		c.shapeDone = map[string]bool{}
+	}
+	c.shapeDone[t.S] = true
+	c.assume(Term{fmt.Sprintf("(and (<= 0 (soff %[1]s)) (<= 0 (slen %[1]s)) (<= (slen %[1]s) (scap %[1]s)) (<= (scap %[1]s) 9223372036854775807))", t.S), SBool})
 }
